@@ -16,6 +16,7 @@ import Sb.Corr.LoadOps
 import Sb.Corr.BuilderOps
 import Sb.Corr.UtilOps
 import Sb.Corr.ConvOps
+import Sb.Corr.AllocOps
 
 open Sb.Corr
 
@@ -49,6 +50,7 @@ def dispatch (op : String) (args impl : List String) : Verdict :=
   | "rgbw_row" => opRgbwRow args impl
   | "bufops" => opBufops args impl
   | "rthconv" => opRthConv args impl
+  | "alloc" => opAlloc args impl
   | "traj" => opTraj args impl
   | "yawq" => opYawq args impl
   | "facc" => opFacc args impl
